@@ -89,8 +89,16 @@ func (r *sumRun) startClient(spec clientSpec, ci *sw.ClientInfo, tag string) {
 		r.s.Go(slotName, ci.Group, func() {
 			for qi, q := range reqs {
 				sched.Yield("Lookup " + q.String())
+				r.w.Mu.Lock()
+				if ci.LookupStart == nil {
+					ci.LookupStart = map[int]int{}
+				}
+				ci.LookupStart[ti] = r.w.StepFn()
+				ci.CurrentTask = ti
+				r.w.Mu.Unlock()
 				lines, err := c.Lookup(q.Path, q.Vers)
 				r.w.Mu.Lock()
+				ci.CurrentTask = ti
 				o := outcome{Client: ci.ID, Task: ti, Seq: qi, Req: q, Lines: lines, Err: err, Tainted: ci.Tainted, Step: r.w.StepFn()}
 				if err != nil {
 					r.res.Logf("c%d.g%d Lookup %s -> error: %s", ci.ID, ti, q, firstLine(err.Error()))
